@@ -45,11 +45,38 @@ func c05GenValid(w *World, pr *Proto, p *Peer) (model.DatagramType, string) {
 		return model.DatagramType{Header: h, Payload: model.PayloadType{Cmd: []model.CmdType{cmd}}}, tag
 	}
 	// data-carrying commands for a list function with a random filter shape
+	var listCmd0 func(fn model.FunctionType) model.CmdType
 	listCmd := func(fn model.FunctionType) model.CmdType {
+		cmd := listCmd0(fn)
+		if cmd.Function != nil && w.T.Bool(1, 5, "function-element-inconsistent") {
+			// the optional function element disagrees with the data element the cmd carries:
+			// it names another function of the sending or of the addressed feature, nothing, or
+			// something unknown
+			var others []model.FunctionType
+			for _, t := range []model.FeatureTypeType{pf.Type, lf.Type} {
+				for _, fi := range fnTable[t] {
+					if fi.Fn != fn {
+						others = append(others, fi.Fn)
+					}
+				}
+			}
+			switch k := w.T.Choose(6, "function-element"); {
+			case k < 4 && len(others) > 0:
+				cmd.Function = util.Ptr(others[w.T.Choose(len(others), "other-function")])
+				w.Probe("c05-function-element-names-another-function")
+			case k == 4:
+				cmd.Function = util.Ptr(model.FunctionType(""))
+			default:
+				cmd.Function = util.Ptr(model.FunctionType("noSuchFunctionData"))
+			}
+		}
+		return cmd
+	}
+	listCmd0 = func(fn model.FunctionType) model.CmdType {
 		info := fnByNameGeneric(fn)
 		cmd := model.CmdType{}
 		data := w.GenData(info)
-		cmd.SetDataForFunction(fn, data)
+		SetCmdData(&cmd, fn, data)
 		if !info.IsList {
 			// filters make no sense for a function that is not a list - a peer may send them anyway
 			switch w.T.Choose(6, "filter-on-non-list") {
@@ -97,7 +124,7 @@ func c05GenValid(w *World, pr *Proto, p *Peer) (model.DatagramType, string) {
 		case 6:
 			// identifier-less item with a selector and empty data list
 			cmd = model.CmdType{Function: util.Ptr(fn), Filter: []model.FilterType{*MakeFilter(info, "partial", GenSelector(info, ids), nil)}}
-			cmd.SetDataForFunction(fn, reflect.New(info.DataType).Interface())
+			SetCmdData(&cmd, fn, reflect.New(info.DataType).Interface())
 		}
 		return cmd
 	}
@@ -170,7 +197,7 @@ func c05GenValid(w *World, pr *Proto, p *Peer) (model.DatagramType, string) {
 	case 7: // read
 		fn := anyFn(sf.Type)
 		cmd := model.CmdType{}
-		cmd.SetDataForFunction(fn, reflect.New(fnByNameGeneric(fn).DataType).Interface())
+		SetCmdData(&cmd, fn, reflect.New(fnByNameGeneric(fn).DataType).Interface())
 		if w.T.Bool(1, 3, "read-with-filter") {
 			info := fnByNameGeneric(fn)
 			if info.IsList {
@@ -239,6 +266,7 @@ func init() {
 		Prop: "C05", Name: "mutated-traffic", DeadlockDirected: true,
 		NonTrivial: []string{"c05-mutated-message-handled"},
 		Build: func(w *World) {
+			w.GenStructs = true
 			pr := BuildProto(w, ProtoOpt{Peers: 2, MinServers: 2, ClientFeats: true, NoConnect: true})
 			d := &c05Data{pr: pr}
 			w.scData = d
